@@ -3,6 +3,8 @@ from checks import proto_common as pc
 
 QUICK = [
     ("ms-esc", ["req=0:3115b5090142", "submit=1", "qq=", "nn=1", "snn=1"]),
+    ("bc-mm-escaped", ["req=0:31feb50901a9", "req=1:3103b5090100", "submit=1", "qq=", "nn=1", "snn=0", "echofaults=0"]),
+    ("enh-ms", ["enhanced=1", "req=0:3115b5090142", "submit=1", "qq=", "nn=1", "snn=1", "echofaults=0"]),
 ]
 THOROUGH = QUICK
 
